@@ -80,6 +80,21 @@ CORPUS = [
       expect=[('C19.R', 'sitemodel.alpha')]),
     T('c19-benign-ids-renamed-consistently', EV, '                    "gmrf.precision",\n                    **{"tensor": [0.1]},', '                    "gmrf." + "precision",\n                    **{"tensor": [0.1]},', benign=True),
     T('c19-benign-filter-by-tuple', MC, "        parameters2 = list(filter(lambda x: 'tree.ratios' != x, parameters))", "        hidden = ('tree.ratios',)\n        parameters2 = list(filter(lambda x: x not in hidden, parameters))", benign=True),
+    # --- U: the variational builders' own helpers -------------------------------------------------------------
+    T('c19-advi-affine-called-with-scale', AD, "                    apply_affine_transform(\n                        json_object, json_object[CONSTRAINT.LOWER.value], 1.0\n                    )\n\n                    # now id becomes",
+      "                    apply_affine_transform(\n                        json_object, json_object[CONSTRAINT.LOWER.value], 2.0\n                    )\n\n                    # now id becomes",
+      expect=[('C19.U', 'apply_affine_transform::unit-scale-at-every-call-site')]),
+    T('c19-advi-exp-helper-wrong-inverse', AD, "        'tensor': torch.tensor(json_object['tensor']).log().tolist(),", "        'tensor': torch.tensor(json_object['tensor']).log1p().tolist(),",
+      expect=[('C19.U', 'apply_exp_transform::initial-value-through-the-same-inverse')]),
+    T('c19-advi-sigmoid-helper-other-inverse', AD, "            json_object['x']['tensor'] = (\n                torch.distributions.SigmoidTransform()\n                .inv(torch.tensor(json_object['tensor']))\n                .tolist()\n            )\n        else:\n            json_object['x']['tensor'] = value\n            json_object['x']['full'] = [len(json_object['tensor'])]",
+      "            json_object['x']['tensor'] = (\n                torch.distributions.ExpTransform()\n                .inv(torch.tensor(json_object['tensor']))\n                .tolist()\n            )\n        else:\n            json_object['x']['tensor'] = value\n            json_object['x']['full'] = [len(json_object['tensor'])]",
+      expect=[('C19.U', 'apply_sigmoid_transformed::initial-value-through-the-same-inverse')]),
+    T('c19-advi-positive-gets-sigmoid', AD, "                    unres_id = apply_exp_transform(json_object)\n                    distr, loc, scale = create_normal_distribution(", "                    unres_id = apply_sigmoid_transformed(json_object)\n                    distr, loc, scale = create_normal_distribution(",
+      expect=[('C19.U', 'create_meanfield::lower<=0::apply_sigmoid_transformed::transform-matches-constraint')]),
+    T('c19-bounded-parameter-not-unit-interval', EV, "    rho[CONSTRAINT.LOWER.value] = 0.0\n    rho[CONSTRAINT.UPPER.value] = 1.0\n\n    origin = {\n        \"id\": f\"{birth_death_id}.origin\",\n        \"type\": \"TransformedParameter\",\n        \"transform\": \"torch.distributions.AffineTransform\",\n        \"x\": {\n            \"id\": f\"{birth_death_id}.origin.unshifted\",\n            \"type\": \"Parameter\",\n            \"tensor\": [1.0],\n            CONSTRAINT.LOWER.value: 0.0,\n        },\n        \"parameters\": {\n            \"loc\": f\"{tree_id}.root_height\",\n            \"scale\": 1.0,\n        },\n    }\n\n    bd = {",
+      "    rho[CONSTRAINT.LOWER.value] = 0.0\n    rho[CONSTRAINT.UPPER.value] = 0.5\n\n    origin = {\n        \"id\": f\"{birth_death_id}.origin\",\n        \"type\": \"TransformedParameter\",\n        \"transform\": \"torch.distributions.AffineTransform\",\n        \"x\": {\n            \"id\": f\"{birth_death_id}.origin.unshifted\",\n            \"type\": \"Parameter\",\n            \"tensor\": [1.0],\n            CONSTRAINT.LOWER.value: 0.0,\n        },\n        \"parameters\": {\n            \"loc\": f\"{tree_id}.root_height\",\n            \"scale\": 1.0,\n        },\n    }\n\n    bd = {",
+      expect=[('C19.U', 'evolution.create_constant_birth_death::rho::bounded-constraint-is-unit-interval-or-fixed')]),
+    T('c19-benign-advi-exp-helper-torch-log', AD, "        'tensor': torch.tensor(json_object['tensor']).log().tolist(),", "        'tensor': torch.log(torch.tensor(json_object['tensor'])).tolist(),", benign=True),
 ]
 for m in CORPUS:
     if m.id == 'c19-transform-string-typo':
